@@ -70,6 +70,8 @@ pub struct WebSocketFramed<T, C, E, D> {
     encode_item: PhantomData<E>,
     decode_item: PhantomData<D>,
     buffer: Option<BytesMut>,
+    is_readable: bool,
+    has_errored: bool,
 }
 
 impl<T, C, E, D> Unpin for WebSocketFramed<T, C, E, D> {}
@@ -80,7 +82,7 @@ where
     C: Encoder<E, Error = anyhow::Error> + Decoder<Item = D, Error = anyhow::Error> + Unpin,
 {
     pub fn new(stream: WebSocketStream<T>, codec: C) -> Self {
-        Self { stream, codec, encode_item: PhantomData, decode_item: PhantomData, buffer: None }
+        Self { stream, codec, encode_item: PhantomData, decode_item: PhantomData, buffer: None, is_readable: false, has_errored: false }
     }
 }
 
@@ -94,32 +96,45 @@ where
 
     fn poll_next(mut self: Pin<&mut Self>, cx: &mut Context<'_>) -> Poll<Option<Self::Item>> {
         loop {
-            match ready!(self.stream.poll_next_unpin(cx)) {
-                Some(Ok(msg)) => {
-                    if msg.is_binary() || msg.is_text() {
-                        let mut payload = match self.buffer.take() {
-                            Some(buffer) => {
-                                let msg_payload = msg.as_payload();
-                                let mut payload = BytesMut::with_capacity(buffer.len() + msg_payload.len());
-                                payload.extend_from_slice(&buffer);
-                                payload.extend_from_slice(msg_payload);
-                                payload
-                            }
-                            None => BytesMut::from(msg.into_payload()),
-                        };
+            // like FramedRead: nothing is decoded after an error
+            if self.has_errored {
+                return Poll::Ready(None);
+            }
+            // offer what is already buffered to the decoder before waiting for the transport
+            if self.is_readable {
+                match self.buffer.take() {
+                    Some(mut payload) => {
                         let decoded = self.codec.decode(&mut payload);
                         if !payload.is_empty() {
                             self.buffer = Some(payload);
                         }
                         match decoded {
                             Ok(Some(item)) => return Poll::Ready(Some(Ok(item))),
-                            Ok(None) => return Poll::Pending,
-                            Err(e) => return Poll::Ready(Some(Err(e))),
+                            Ok(None) => self.is_readable = false,
+                            Err(e) => {
+                                self.has_errored = true;
+                                return Poll::Ready(Some(Err(e)));
+                            }
                         }
                     }
-                    continue;
+                    None => self.is_readable = false,
                 }
-                Some(Err(e)) => return Poll::Ready(Some(Err(anyhow!(e)))),
+            }
+            match ready!(self.stream.poll_next_unpin(cx)) {
+                Some(Ok(msg)) => {
+                    if msg.is_binary() || msg.is_text() {
+                        let msg_payload = msg.as_payload();
+                        match self.buffer.as_mut() {
+                            Some(buffer) => buffer.extend_from_slice(msg_payload),
+                            None => self.buffer = Some(BytesMut::from(&msg_payload[..])),
+                        }
+                        self.is_readable = true;
+                    }
+                }
+                Some(Err(e)) => {
+                    self.has_errored = true;
+                    return Poll::Ready(Some(Err(anyhow!(e))));
+                }
                 None => return Poll::Ready(None),
             }
         }
